@@ -108,6 +108,7 @@ fn main() {
         "c10" => c08::run_c10(&args, &mut out),
         "scope" => scope::run(&args, &mut out),
         "c13" => twin::run(&args, &mut out, "c13"),
+        "c13r" => twin::run(&args, &mut out, "c13r"),
         "c14" => twin::run(&args, &mut out, "c14"),
         "c15" => c15::run(&args, &mut out),
         "c16" => c16::run(&args, &mut out),
